@@ -12,8 +12,8 @@ import sys
 ROOT = "/verif"
 need = {}
 only = sys.argv[1:]
-for d in sorted(glob.glob("/tmp/mut_C*/OUT/m*") + glob.glob("/tmp/mut2_C*/OUT/m*") + glob.glob("/tmp/mut3_C*/OUT/m*") + glob.glob("/tmp/mut4_C*/OUT/m*") + glob.glob("/tmp/mut5_C*/OUT/m*") + glob.glob("/tmp/mut6_C*/OUT/m*") + glob.glob("/tmp/mut7_C*/OUT/m*") + glob.glob("/tmp/mut8_C*/OUT/m*") + glob.glob("/tmp/mut9_C*/OUT/m*") + glob.glob("/tmp/mut10_C*/OUT/m*")):
-    prop = re.search(r"mut(?:[2-9]|10)?_(C\d\d)", d).group(1)
+for d in sorted(glob.glob("/tmp/mut_C*/OUT/m*") + glob.glob("/tmp/mut2_C*/OUT/m*") + glob.glob("/tmp/mut3_C*/OUT/m*") + glob.glob("/tmp/mut4_C*/OUT/m*") + glob.glob("/tmp/mut5_C*/OUT/m*") + glob.glob("/tmp/mut6_C*/OUT/m*") + glob.glob("/tmp/mut7_C*/OUT/m*") + glob.glob("/tmp/mut8_C*/OUT/m*") + glob.glob("/tmp/mut9_C*/OUT/m*") + glob.glob("/tmp/mut10_C*/OUT/m*") + glob.glob("/tmp/mut11_C*/OUT/m*")):
+    prop = re.search(r"mut(?:[2-9]|1[01])?_(C\d\d)", d).group(1)
     if only and not any(o in d for o in only):
         continue
     k = os.path.basename(d)
